@@ -385,6 +385,9 @@ func (s *Server) getUpdate(ctx context.Context, targetInfo *targetInfo, prefix *
 
 	filteredValues := make([]*configapi.PathValue, 0)
 	pathRegexp := utils.MatchWildcardRegexp(pathInfo.pathAsString, false)
+	if pathRegexp == nil {
+		return nil, errors.NewInvalid("invalid path %s", pathInfo.pathAsString)
+	}
 	for _, cv := range configValuesAllowed {
 		if pathRegexp.MatchString(cv.Path) && !cv.Deleted {
 			filteredValues = append(filteredValues, cv)
